@@ -115,8 +115,15 @@ def soak_worker(args):
                 s = S.RWMH(seed=int(rng.integers(1 << 31)))
                 kw = dict(stepsize=cfg["h"] if not cfg.get("vector") else np.array(cfg["vector"]).reshape(-1, 1))
             with quiet(), np.errstate(all="ignore"):
-                s.sample(fn, dist, initial_model=x0.reshape(-1, 1), proposals=cfg["K"], overwrite_existing_file=True,
-                         disable_progressbar=True, **kw)
+                if cfg.get("chunks"):
+                    # the K transitions as several runs of one (seeded) sampler object, each continuing from the state the previous one ended in
+                    x = x0.reshape(-1, 1)
+                    for _c in range(cfg["chunks"]):
+                        s.sample(fn, dist, initial_model=x.copy(), proposals=cfg["K"] // cfg["chunks"], overwrite_existing_file=True, disable_progressbar=True, **kw)
+                        x = np.array(s.current_model, dtype=float).reshape(-1, 1)
+                else:
+                    s.sample(fn, dist, initial_model=x0.reshape(-1, 1), proposals=cfg["K"], overwrite_existing_file=True,
+                             disable_progressbar=True, **kw)
             if cfg.get("long"):
                 # started from an exact draw, every state of the run has the target's law if the kernel leaves it invariant:
                 # the run's averages of x and x^2 are unbiased, and runs are independent
@@ -166,9 +173,9 @@ def build_target(cfg, D):
     if t == "truncated":
         mu = np.array(cfg["mu"]).reshape(-1, 1)
         var = np.array(cfg["var"]).reshape(-1, 1)
-        lo = np.array(cfg["lo"]).reshape(-1, 1)
-        hi = np.array(cfg["hi"]).reshape(-1, 1)
-        dist = D.Normal(mu.copy(), var.copy(), lower_bounds=lo.copy(), upper_bounds=hi.copy())
+        lo = np.array(cfg["lo"], dtype=float).reshape(-1, 1) if cfg["lo"] is not None else np.full(mu.shape, -np.inf)
+        hi = np.array(cfg["hi"], dtype=float).reshape(-1, 1) if cfg["hi"] is not None else np.full(mu.shape, np.inf)
+        dist = D.Normal(mu.copy(), var.copy(), lower_bounds=None if cfg["lo"] is None else lo.copy(), upper_bounds=None if cfg["hi"] is None else hi.copy())
 
         def draw(rng):
             while True:
@@ -211,8 +218,8 @@ def analytic_moments(cfg):
 
         mu = np.array(cfg["mu"], dtype=float)
         sd = np.sqrt(np.array(cfg["var"], dtype=float))
-        lo = np.array(cfg["lo"], dtype=float)
-        hi = np.array(cfg["hi"], dtype=float)
+        lo = np.array(cfg["lo"], dtype=float) if cfg["lo"] is not None else np.full(mu.shape, -np.inf)
+        hi = np.array(cfg["hi"], dtype=float) if cfg["hi"] is not None else np.full(mu.shape, np.inf)
         a, b = (lo - mu) / sd, (hi - mu) / sd
         tn = stats.truncnorm(a, b, loc=mu, scale=sd)
         mean = tn.mean()
@@ -247,9 +254,15 @@ def soak_configs(rnd, thorough):
     flat = {"target": "truncated", "mu": [0.5, 0.4], "var": [1e4, 1e4], "lo": [0.0, 0.0], "hi": [1.0, 0.8]}
     wide = [dict(flat, sampler="HMC", integrator=i, mass=m, randomize=r, h=h, n=n, K=2, runs=6400, massdiag=[0.5, 2.0], massfull=None)
             for i, m, r, h, n in (("lf", "unit", False, 2.0, 1), ("3s", "diag", True, 4.0, 1), ("lf", "unit", True, 2.0, 3))]
+    # boxes with one open side (lower-only, upper-only, given as None), and runs in chunks on one seeded sampler object
+    onesided = [dict({"target": "truncated", "mu": [0.2, -0.3], "var": [1.0, 0.5], "lo": lo_, "hi": hi_}, sampler="HMC", integrator=i, mass=m, randomize=r, h=0.6, n=4, K=4,
+                     runs=3200, massdiag=[0.5, 2.0], massfull=None)
+                for lo_, hi_, i, m, r in (([0.0, -0.5], None, "lf", "unit", False), (None, [0.6, 0.2], "3s", "diag", True), ([0.0, -0.5], None, "4s", "diag", True))]
+    chunked = [dict(targets[0], sampler="RWMH", h=0.8, K=10, chunks=5, runs=3200),
+               dict(targets[0], sampler="HMC", integrator="lf", mass="unit", randomize=True, h=0.35, n=4, K=8, chunks=8, runs=3200, massdiag=[0.5, 2.0], massfull=None)]
     if not thorough:
-        return cfgs[:9] + [wide[rnd.randrange(len(wide))]]
-    cfgs = cfgs + wide
+        return cfgs[:6] + [wide[rnd.randrange(len(wide))], onesided[0], onesided[1], chunked[rnd.randrange(len(chunked))]]
+    cfgs = cfgs + wide + onesided + chunked
     # long runs from exact draws (every state of such a run has the target's law): far more sensitive to a small stationary bias
     trunc = targets[4]
     longs = [dict(trunc, sampler="HMC", integrator=i, mass="diag", randomize=r, h=0.9, n=6, K=400, long=True, runs=640, massdiag=[0.5, 2.0], massfull=None)
@@ -359,10 +372,13 @@ def search(tier, seed, broken):
     for s_ in broken:
         for dis in s_.disagreements:
             st_ = (dis or {}).get("stimulus") or {}
+            tg_, ms_ = st_.get("target"), st_.get("mass")
+            boxed_ = bool(tg_.get("lb") or tg_.get("ub")) if isinstance(tg_, dict) else tg_ == "truncated"     # transition stimuli describe the target, soak configurations name it
+            mass_ = ms_.get("mass") if isinstance(ms_, dict) else ms_
             if st_.get("sampler") == "HMC":
-                key = (st_.get("integrator"), (st_.get("mass") or {}).get("mass"), bool((st_.get("target") or {}).get("lb") or (st_.get("target") or {}).get("ub")))
+                key = (st_.get("integrator"), mass_, boxed_)
             elif st_.get("sampler") == "RWMH":
-                key = ("rwmh", None, bool((st_.get("target") or {}).get("lb") or (st_.get("target") or {}).get("ub")))
+                key = ("rwmh", None, boxed_)
             else:
                 continue
             if key in seen:
